@@ -1,6 +1,7 @@
 """Parallel depth-first exploration of harness paths (decision-prefix re-execution)."""
 import multiprocessing as mp
 import os
+import pickle
 import queue
 import time
 import traceback
@@ -139,6 +140,16 @@ def _worker(jobs, task_q, res_q, wid):
                  'inconclusive': [], 'violations': [], 'checks': 0, 'solver_s': 0.0, 'unknown_feas': 0,
                  'reached': {}, 'trace_len': 0, 'funcs': [], 'notes': [], 'wall': 0.0}
         r.pop('notes', None)
+        try:
+            # mp.Queue pickles in a feeder thread and drops what it cannot pickle without telling anyone (the parent would wait
+            # for this path for ever): check here and turn such a result into a path error
+            pickle.dumps(r)
+        except Exception as e:
+            r = {'status': 'error', 'error': 'ENGINE: result of the path cannot be sent to the parent: ' + repr(e),
+                 'new_prefixes': [], 'events': {}, 'obligations': 0, 'discharged': 0, 'concrete_ok': 0,
+                 'inconclusive': [], 'violations': [], 'checks': 0, 'solver_s': 0.0, 'unknown_feas': 0,
+                 'reached': {}, 'trace_len': 0, 'funcs': [], 'notes': [], 'wall': 0.0}
+            r.pop('notes', None)
         res_q.put((ji, r))
         n_done += 1
 
